@@ -20,7 +20,7 @@ Fixpoint hexbytes (s : string) : list Z :=
 Inductive case11 :=
 | KParse (hex : string) (orc : list (Q * Q * Q)) (gclass gkind gpos : Z) (god : list num) (exact : bool)
 | KFloat (hex : string) (glen : Z) (gfin : bool) (gval : Q)
-| KPrint (god : list num) (sStr sSvg sPdf sPs : string) (rclass : Z) (rdata : list num) (cs : list (Q * Q))
+| KPrint (god : list num) (sStr sSvg sPdf sPs : string) (rclass : Z) (rdata : list num) (cs : list (Q * Q)) (rorc : list (Q * Q * Q))
 | KNone.
 
 Definition bit (b : bool) (k : Z) : Z := if b then k else 0.
@@ -57,8 +57,14 @@ Definition judge_parse (v : pvariant) (b : list Z) orc gclass gkind gpos god (ex
   end.
 
 (** ---- geometry comparison ---- *)
-Definition gp_near (abs rel : Q) (x y : gp) : bool :=
-  let pn := pnear abs rel in let nr := near abs rel in
+(** relative to the larger coordinate of the two points: used for PDF/PS, where the pen after an arc carries the
+    float error of the arc's own scale (ReplaceArcs / ellipse arithmetic), not of the individual coordinate *)
+Definition pnear2 (abs rel : Q) (a b : pt) : bool :=
+  let m := Qmax (Qmax (Qabs (fst a)) (Qabs (snd a))) (Qmax (Qabs (fst b)) (Qabs (snd b))) in
+  Qle_bool (Qabs (fst a - fst b)) (abs + rel * m) && Qle_bool (Qabs (snd a - snd b)) (abs + rel * m).
+
+Definition gp_near_gen (norm : bool) (abs rel : Q) (x y : gp) : bool :=
+  let pn := if norm then pnear2 abs rel else pnear abs rel in let nr := near abs rel in
   match x, y with
   | GMove a, GMove b => pn a b
   | GLine a b, GLine a' b' => pn a a' && pn b b'
@@ -71,6 +77,9 @@ Definition gp_near (abs rel : Q) (x y : gp) : bool :=
      || (nr rx ry' && nr ry rx' && near (1 # 100000) rel rot (rot' + (90#1))%Q))        (* printed with rx/ry swapped and rot-90 *)
   | _, _ => false
   end.
+
+Definition gp_near := gp_near_gen false.
+Definition gp_near2 := gp_near_gen true.
 
 Fixpoint gps_near (abs rel : Q) (l1 l2 : list gp) : bool :=
   match l1, l2 with
@@ -92,10 +101,18 @@ Definition q2c (a c b : pt) : gp :=
 
 (** PDF: arcs were replaced by chains of cubics (ReplaceArcs): the chain must start at the arc's start and
     end at its end point (how well it approximates the arc is C03/C12's matter). [fuel] bounds the chain. *)
+(** ReplaceArcs appends a LineTo to the exact end point when its last cubic ends a float error away from it:
+    such a line (both ends at the arc's end point within the slack of the arc's scale) traces nothing new *)
+Definition strip_tail (abs : Q) (b : pt) (r : list gp) : list gp :=
+  match r with
+  | GLine s e :: r' => if pnear2 abs REL7 s b && pnear2 abs REL7 e b then r' else r
+  | _ => r
+  end.
+
 Fixpoint eat_chain (fuel : nat) (abs : Q) (b : pt) (act : list gp) : option (list gp) :=
   match fuel, act with
-  | S f, GCube _ _ _ e :: r => if pnear abs REL7 e b then Some r else eat_chain f abs b r
-  | S f, GLine _ e :: r => if pnear abs REL7 e b then Some r else eat_chain f abs b r
+  | S f, GCube _ _ _ e :: r => if pnear2 abs REL7 e b then Some (strip_tail abs b r) else eat_chain f abs b r
+  | S f, GLine _ e :: r => if pnear2 abs REL7 e b then Some (strip_tail abs b r) else eat_chain f abs b r
   | _, _ => None
   end.
 
@@ -105,11 +122,11 @@ Fixpoint pdf_match (abs : Q) (exp act : list gp) : bool :=
   | GArcE a _ _ _ _ _ b :: er =>
     match act with
     | (GCube a' _ _ _ | GLine a' _) :: _ =>
-      pnear abs REL7 a a' && match eat_chain 64 abs b act with Some ar => pdf_match abs er ar | None => false end
+      pnear2 abs REL7 a a' && match eat_chain 64 abs b act with Some ar => pdf_match abs er ar | None => false end
     | _ => false
     end
-  | GQuad a c b :: er => match act with y :: ar => gp_near abs REL7 (q2c a c b) y && pdf_match abs er ar | [] => false end
-  | x :: er => match act with y :: ar => gp_near abs REL7 x y && pdf_match abs er ar | [] => false end
+  | GQuad a c b :: er => match act with y :: ar => gp_near2 abs REL7 (q2c a c b) y && pdf_match abs er ar | [] => false end
+  | x :: er => match act with y :: ar => gp_near2 abs REL7 x y && pdf_match abs er ar | [] => false end
   end.
 
 (** PS: arcs in centre form; (c, s) = (cos phi, sin phi) of the stored rotation come from the harness and
@@ -139,7 +156,7 @@ Fixpoint ps_match (abs : Q) (exp act : list gp) (cs : list (Q * Q)) : bool :=
   | GArcE a rx ry rot l s b :: er =>
     match act, cs with
     | GArcC a' cx cy rx' ry' t0 t1 rot' ccw :: ar, (c, sn) :: cs' =>
-      pnear abs REL7 a a' && near abs REL7 rx rx' && near abs REL7 ry ry' && near (1 # 100000) REL7 rot rot'
+      pnear2 abs REL7 a a' && near abs REL7 rx rx' && near abs REL7 ry ry' && near (1 # 100000) REL7 rot rot'
       && Bool.eqb ccw s
       && near (1 # 1000000) 0 (c * c + sn * sn)%Q 1
       && on_ellipse cx cy rx' ry' c sn a && on_ellipse cx cy rx' ry' c sn b
@@ -149,8 +166,8 @@ Fixpoint ps_match (abs : Q) (exp act : list gp) (cs : list (Q * Q)) : bool :=
       && ps_match abs er ar cs'
     | _, _ => false
     end
-  | GQuad a c b :: er => match act with y :: ar => gp_near abs REL7 (q2c a c b) y && ps_match abs er ar cs | [] => false end
-  | x :: er => match act with y :: ar => gp_near abs REL7 x y && ps_match abs er ar cs | [] => false end
+  | GQuad a c b :: er => match act with y :: ar => gp_near2 abs REL7 (q2c a c b) y && ps_match abs er ar cs | [] => false end
+  | x :: er => match act with y :: ar => gp_near2 abs REL7 x y && ps_match abs er ar cs | [] => false end
   end.
 
 Fixpoint arc_ends (l : list gp) : list pt :=
@@ -164,11 +181,23 @@ Fixpoint arc_ends (l : list gp) : list pt :=
     cells within Path.Equals' own tolerance *)
 Definition EPS10 : Q := 1 # 10000000000.
 
-Definition judge_print (god : list num) (sStr sSvg sPdf sPs : string) (rclass : Z) (rdata : list num) (cs : list (Q * Q)) : Z :=
+Definition judge_print (god : list num) (sStr sSvg sPdf sPs : string) (rclass : Z) (rdata : list num) (cs : list (Q * Q)) (rorc : list (Q * Q * Q)) : Z :=
   match expected god with
   | None => 0      (* not decodable: nothing to say here (C10's validator flags it) *)
   | Some ex =>
-    let rt := (rclass =? 0) && data_near EPS10 REL50 god rdata in
+    let rt := (rclass =? 0) && data_near EPS10 REL50 god rdata
+              (* and the string itself denotes p under the format semantics (rotation: rad->deg slack) *)
+              && (if empty god then true
+                  else match svg_path_sem (hexbytes sStr) with
+                       | Some act => gps_near EPS10 REL50 ex act
+                       | None => false end) in
+    (* K1 on the real String() output: the faithful parser model reads it as the Go parser did *)
+    let tie := match parse PFixed (hexbytes sStr) rorc with
+               | POk rd => (rclass =? 0) && data_near ABS40 REL50 (data rd) rdata
+               | PErr _ _ => rclass =? 1
+               | PPanic => rclass =? 2
+               | PUnmodelled => true
+               | PFuel => false end in
     let svg := match svg_path_sem (hexbytes sSvg) with
                | Some act => gps_near (1 # 1000000000) (1 # 10000000) ex act
                | None => false end in
@@ -178,7 +207,7 @@ Definition judge_print (god : list num) (sStr sSvg sPdf sPs : string) (rclass : 
     let ps := match ps_sem (hexbytes sPs) (arc_ends ex) with
               | Some act => ps_match (1 # 100000000) ex (drop_null_lines act) cs
               | None => false end in
-    bit (negb rt) 512 + bit (negb svg) 1024 + bit (negb pdf) 2048 + bit (negb ps) 4096
+    bit (negb rt) 512 + bit (negb svg) 1024 + bit (negb pdf) 2048 + bit (negb ps) 4096 + bit (negb tie) 4
   end.
 
 Definition judge (c : case11) : list Z :=
@@ -201,8 +230,8 @@ Definition judge (c : case11) : list Z :=
       [bit (negb (Z.of_nat (pf_len r) =? glen)) 128
        + bit (gfin && (Z.of_nat (pf_len r) =? glen) && negb (near 0 REL50 v gval)) 256; Z.of_nat (pf_len r); 0]
     end
-  | KPrint god sStr sSvg sPdf sPs rclass rdata cs =>
-    [judge_print god sStr sSvg sPdf sPs rclass rdata cs;
+  | KPrint god sStr sSvg sPdf sPs rclass rdata cs rorc =>
+    [judge_print god sStr sSvg sPdf sPs rclass rdata cs rorc;
      match decode_fwd god with Some p => Z.of_nat (List.length p) | None => -1 end; 0]
   | KNone => [0; 0; 0]
   end.
